@@ -48,6 +48,24 @@ def seq_families(tier):
                                          maxPull=0, allowFail=False, reentrant=True), None)
     F["share2_re"] = (scen.with_bounds(scen.share_g("push"), "share", sinks=["probe", "probe"], maxData=2,
                                        maxTop=3, maxPull=0, allowFail=False, reentrant=True), None)
+    # compositions of operators (each property is stated for every operator output, wherever it sits)
+    P = scen.puppet
+    comps = {
+        "take_merge": [P(1, 1), P(2, 2), {"id": 3, "kind": "merge", "ups": [1, 2]}, {"id": 4, "kind": "take", "n": 2, "ups": [3]}],
+        "merge_take": [P(1, 1), P(2, 2), {"id": 3, "kind": "take", "n": 1, "ups": [1]}, {"id": 4, "kind": "merge", "ups": [3, 2]}],
+        "concat_take": [P(1, 1), P(2, 2), {"id": 3, "kind": "take", "n": 1, "ups": [1]}, {"id": 4, "kind": "concat", "ups": [3, 2]}],
+        "scan_filter": [P(1, 1), {"id": 2, "kind": "filter", "p": "odd", "ups": [1]}, {"id": 3, "kind": "scan", "r": "add", "seed": 0, "ups": [2]}],
+        "combine_take": [P(1, 1), P(2, 2), {"id": 3, "kind": "take", "n": 1, "ups": [1]}, {"id": 4, "kind": "combine", "ups": [3, 2]}],
+        "skip_concat": [P(1, 1), P(2, 2), {"id": 3, "kind": "concat", "ups": [1, 2]}, {"id": 4, "kind": "skip", "n": 1, "ups": [3]}],
+        "take_skip_map": [P(1, 1), {"id": 2, "kind": "map", "f": "inc", "ups": [1]}, {"id": 3, "kind": "skip", "n": 1, "ups": [2]},
+                          {"id": 4, "kind": "take", "n": 1, "ups": [3]}],
+    }
+    for nm, nodes in comps.items():
+        big = len([n for n in nodes if n["kind"] == "puppet"]) > 1
+        F["compo_" + nm] = (scen.with_bounds({"nodes": nodes, "root": len(nodes)}, nodes[-1]["kind"],
+                                             maxData=1 if big else 2, maxTop=3 if (q or big) else 4, maxPull=1, allowFail=True),
+                            scen.with_bounds({"nodes": nodes, "root": len(nodes)}, nodes[-1]["kind"],
+                                             maxData=3, maxTop=6, maxPull=3, allowFail=True, sinkErr=True))
     # two subscriptions of the same output (the properties are stated per subscription)
     tb = dict(maxData=1, maxTop=4, maxPull=0, allowFail=True, burst=False, sinks=["probe", "probe"])
     for kind in ("merge", "concat", "combine"):
@@ -96,6 +114,8 @@ def group_small(fams):
             continue
         kind = c["fam"]
         g = "unary" if kind in ("map", "filter", "scan", "take", "skip") else "nary_small"
+        if n.startswith("compo_"):
+            g = "compo"
         if n.endswith("_re") or n.endswith("_r2"):
             g += "_re"
         groups.setdefault(g, []).append((n, c, r))
